@@ -221,13 +221,13 @@ def flatten(x):
 
 
 # --------------------------------------------------------------------------
-def model_lines(toks, flat, exprs, compressed):
+def model_lines(toks, flat, exprs, compressed, cmd='query'):
     lines, meta = [], []
     for si, (labels, vals, links) in enumerate(flat):
         if compressed and si > 0:
             break
         for e in exprs:
-            lines.append('query %s %s %s %s %s' % (
+            lines.append(cmd + ' %s %s %s %s %s' % (
                 ','.join(labels) or '-', ','.join(B.python_value_to_model(v) for v in vals) or '-',
                 ','.join('%d>%d' % kv for kv in links) or '-', e.encode('latin-1').hex(), toks))
             meta.append((si, e))
@@ -259,9 +259,24 @@ def check_message(ctx, case, toks, b, tag, max_depth, budget):
         a, bb = rng.sample(ids, 2)
         desc.append(('%s > %s%s' % (a, bb, slice_str(rand_slice(rng))), None, None))
     sel = rng.choice(['', '', '@[0]', '@[-1]', '@[::2]', '@[1:]', '@[%d]' % (nsub - 1)])
-    exprs = [(sel + e, cs, None) for e, cs in paths] + [(sel + e, None, i) for e, _, i in desc]
+    # child/attribute paths that must fail: a zero slice step, a child step from a value node, an attribute step
+    # from a node without attributes (the Python evaluator is not asked about the first: cs is None)
+    bad = []
+    for e, cs in paths[:6]:
+        k = rng.random()
+        if not e.endswith(']') and k < 0.4:
+            bad.append((e + '[::0]', None))
+        elif k < 0.7:
+            bad.append((e + '/001001', cs + [('/', '001001', slice(None))]))
+        else:
+            bad.append((e + '.001001[0]', cs + [('.', '001001', 0)]))
+    exprs = [(sel + e, cs, None) for e, cs in paths + bad] + [(sel + e, None, i) for e, _, i in desc]
+    simple = set(e for e, _, _ in exprs)      # every path: the Coq reference covers descendant steps too (QueryRef.jdesc)
     lines, meta = model_lines(toks, flat, [e for e, _, _ in exprs], compressed)
     mouts = dict(zip(meta, lib.run_model_sharded(lines) if len(lines) > 3000 else lib.run_model(lines)))
+    # the proved-equal Coq reference (QueryRef.eval_json over Nested.render_nodes) on the extracted model
+    rlines, rmeta = model_lines(toks, flat, [e for e, _, _ in exprs if e in simple], compressed, cmd='queryref')
+    routs = dict(zip(rmeta, lib.run_model_sharded(rlines) if len(rlines) > 3000 else lib.run_model(rlines)))
     subs_model = dict(zip([e for e, _, _ in exprs],
                           lib.run_model(['qsubsets %d %s' % (nsub, e.encode('latin-1').hex()) for e, _, _ in exprs])))
     for e, cs, bare in exprs:
@@ -296,6 +311,12 @@ def check_message(ctx, case, toks, b, tag, max_depth, budget):
                         ctx.violation(dict(kind='C16-reference-evaluation', case=case, expr=e, subset=si,
                                            impl=fmt(io[2][k])[:300], reference=repr(r)[:300]),
                                       'query %r: implementation %s, evaluation over nested JSON %r' % (e, fmt(io[2][k])[:80], r))
+                ro = routs.get((0 if compressed else si, e))
+                if ro is not None:
+                    ctx.dist['coq-reference-compared' + ('-descendant' if '>' in e or bare is not None else '')] += 1
+                    if ro != got:
+                        ctx.compare(dict(case, expr=e, subset=si), got[:300], ro[:300], kind='C16-coq-reference',
+                                    holds=lambda: cs is None or ref_eval(nested[0 if compressed else si], cs) == ('ok', io[2][k]))
                 if bare is not None and bare not in attr_ids:
                     labels = flat[si][0]
                     want_idx = [j for j, l in enumerate(labels) if l == bare]
@@ -310,6 +331,13 @@ def check_message(ctx, case, toks, b, tag, max_depth, budget):
                 others = [mouts.get((si, e)) for si in range(nsub)]
                 if not any(o and o.endswith('err %d' % io[1]) for o in others):
                     ctx.compare(dict(case, expr=e), 'err %d' % io[1], mo[:200], kind='C16-query-error-class', holds=lambda: True)
+            if e in simple:
+                # the Coq reference answers with the same error class (for some selected subset)
+                ctx.dist['coq-reference-error-compared:%d' % io[1]] += 1
+                ros = [routs.get((si, e)) for si in range(nsub)]
+                if not any(o and o.endswith('err %d' % io[1]) for o in ros):
+                    ctx.compare(dict(case, expr=e), 'err %d' % io[1], str(ros[0])[:200], kind='C16-coq-reference-error-class',
+                                holds=lambda: True)
     # the same queries on a message decoded through a compiled template
     if tag == 'generated' and rng.random() < 0.5:
         from pybufrkit.decoder import Decoder
@@ -334,7 +362,10 @@ def run(ctx):
                 'factors, attributes) with random int / negative / 3-part slices at every step x subset selectors x bare-id and '
                 'descendant queries; the implementation runs with index-carrying values so results are compared as index '
                 'structures with (1) the extracted model (Wire.wire + Query.process_one_subset), (2) an independent evaluator over '
-                'the nested JSON rendering for child/attribute paths, (3) the flat data for bare ids.')
+                'the nested JSON rendering for child/attribute paths, (3) the flat data for bare ids, (4) the Coq reference '
+                'QueryRef.eval_json over Nested.render_nodes (proved equal to the model: C16_query_eq_reference) run on the '
+                'extracted model for every child/attribute path, error classes included; plus child/attribute paths built to '
+                'fail (zero slice step, child step from a value node, attribute step from a node without attributes).')
     n = ctx.n(220, 3000)
     cases = P.build_cases(ctx, n, gen_kwargs=dict(size=5), nsub_choices=(1, 2, 3), compressed=(False, False, True),
                           versions=(33,), editions=(4,))
@@ -381,8 +412,11 @@ def run(ctx):
             continue
         ctx.dist['corpus-files'] += 1
         check_message(ctx, {'file': os.path.basename(f)}, toks, b, os.path.basename(f), ctx.n(4, 6), ctx.n(8, 30))
-    ctx.partial = ['each step of a query is proved (C16_step_*); their composition over the tree, query_eq_reference (query = evaluation over the nested rendering), is checked differentially, not proved']
-    ctx.assumptions = ['descendant (>) paths: only the tie with the model and the bare-id law are checked']
+    ctx.partial = []
+    ctx.assumptions = ['paths with a descendant (>) step: proved over a saturated rendering (executable hypothesis, checked by the '
+                       'driver on every case: it answers "unsaturated" otherwise) with a fuel bound in the nesting depth of the rendering',
+                       'the Coq reference eval_json reads the rendering Nested.render_nodes, whose agreement with NestedJsonRenderer is '
+                       "C09's correspondence; here it is additionally compared with the implementation's answers directly"]
 
 
 def replay(ctx, rec):
